@@ -60,6 +60,14 @@ TEMPLATES = {
     "NEXTI": "NEXT I",
     "FORGOSUB": "FOR I = 1 TO 2 : GOSUB {S} : NEXT I",
     "FORVAR": 'FOR I = 1 TO 2 : C = C + I : NEXT I : PRINT "{t}"',
+    "IFNUM": 'IF A THEN PRINT "{t}"',
+    "IFNUMELSE": 'IF A THEN PRINT "{t}" ELSE PRINT "{t}"',
+    "ELIFNUM": 'IF A = 1 THEN PRINT "{t}" ELSE IF B THEN PRINT "{t}" ELSE PRINT "{t}"',
+    "ELIFNUML": "IF A THEN {G} ELSE IF B THEN {H} ELSE {G}",
+    "FOR3LISTBARE": 'FOR G = 1 TO 2 : FOR I = 1 TO 2 : FOR J = 1 TO 2 : PRINT "{t}" : NEXT J , I : PRINT "{t}" : NEXT',
+    "FOR4LISTBARE": 'FOR G = 1 TO 2 : FOR H = 1 TO 2 : FOR I = 1 TO 2 : FOR J = 1 TO 2 : PRINT "{t}" : NEXT J , I : NEXT : PRINT "{t}" : NEXT',
+    "FOR3LIST3": 'FOR K = 1 TO 2 : FOR J = 1 TO 2 : FOR I = 1 TO 2 : PRINT "{t}" : NEXT I , J , K',
+    "FOR3BARELIST": 'FOR K = 1 TO 2 : FOR J = 1 TO 2 : FOR I = 1 TO 2 : PRINT "{t}" : NEXT : NEXT J , K',
     "END": "END",
     "STOP": "STOP",
     "IFEND": "IF A = 1 THEN END",
@@ -119,7 +127,7 @@ def sequences(tier):
             if valid(s):
                 seqs.append(s)
     if tier == "thorough":
-        core = [n for n in names if n not in ("ELIFNOELSE", "FOR2MIX", "PP", "IFELSE2", "ELIF2", "FORDOWN", "FORSTEP", "FORJ", "GOSUB2", "IFSS", "NEXTI", "FORIF", "FORLINE", "NEXTBARE", "STOP", "END", "SET", "IFLS", "IFSL", "ELIFSL", "IFEND", "FORVAR")]
+        core = [n for n in names if n not in ("ELIFNOELSE", "FOR2MIX", "PP", "IFELSE2", "ELIF2", "FORDOWN", "FORSTEP", "FORJ", "GOSUB2", "IFSS", "NEXTI", "FORIF", "FORLINE", "NEXTBARE", "STOP", "END", "SET", "IFLS", "IFSL", "ELIFSL", "IFEND", "FORVAR", "IFNUM", "IFNUMELSE", "ELIFNUM", "ELIFNUML", "FOR3LISTBARE", "FOR4LISTBARE", "FOR3LIST3", "FOR3BARELIST")]
     else:
         core = ["P", "IFL", "IFSG", "IFELSE", "IFLL", "ELIF", "GOSUB", "ONGOTO", "FORBARE", "FOR2BARE", "FOR", "IFSTOP", "GOTO"]
     for s in itertools.product(core, repeat=3):
@@ -143,7 +151,7 @@ def run_program(src, oi, st):
     if o[0] != "ok":
         return o[0], o[1], [], {}
     init_mode = "zero" if opts["initialize_vars"] else "symbolic"
-    res = equiv.compare(src, o[1], library=library(), init_mode=init_mode, stats=st, step_bound=80)
+    res = equiv.compare(src, o[1], library=library(), init_mode=init_mode, stats=st, step_bound=140)
     kinds = []
     for f in res.findings:
         if f.kind in ("arity", "type-class", "missing-argument", "duplicate-decl"):
@@ -213,7 +221,7 @@ def run(tier):
     smt.reset_stats()
     seqs = sequences(tier)
     jobs = [(s, oi) for s in seqs for oi in range(len(OPTION_SETS))]
-    ctx.bounds.update({"templates": len(TEMPLATES), "lines_from_templates_max": 3, "sequences": len(seqs), "option_sets": OPTION_SETS, "step_bound": 80, "loop_trip_counts": "literal, >= 1"})
+    ctx.bounds.update({"templates": len(TEMPLATES), "lines_from_templates_max": 3, "sequences": len(seqs), "option_sets": OPTION_SETS, "step_bound": 140, "loop_trip_counts": "literal, >= 1"})
     for rel in ("coco/b09/grammar.py", "coco/b09/parser.py", "coco/b09/elements.py", "coco/b09/visitors.py", "coco/b09/prog.py", "coco/b09/compiler.py"):
         ctx.encode(rel + " (executed: real convert())", repo_source(rel))
     results = pmap(check_one, jobs, chunksize=32)
